@@ -50,6 +50,18 @@ theorem parseEscapedGo_dot (rest cur : BList) (h : cur ≠ []) :
   | nil => simp [parseEscapedGo, h]
   | cons n r => rw [parseEscapedGo]; simp [h]
 
+theorem getLast?_append_ne (a rest : BList) (h : rest ≠ []) : (a ++ rest).getLast? = rest.getLast? := by
+  cases hr : rest.getLast? with
+  | none => simp [List.getLast?_eq_none_iff] at hr; exact absurd hr h
+  | some x => simp [List.getLast?_append, hr]
+
+theorem stripDot_append (a rest : BList) (h : rest ≠ []) : stripDot (a ++ rest) = a ++ stripDot rest := by
+  unfold stripDot
+  rw [getLast?_append_ne _ _ h]
+  split
+  · rw [List.dropLast_append_of_ne_nil h]
+  · rfl
+
 /-! ### primitive writers -/
 
 @[simp] theorem writeByte_data (p : OutPacket) (v : UInt8) : (p.writeByte v).data = p.data.push v := by
@@ -2107,5 +2119,35 @@ instance (ty : Nat) (rd : Wire.RData) : Decidable (RDataWF ty rd) := by
   cases rd <;> simp only [RDataWF] <;> infer_instance
 instance (r : RecIn) (now : Nat) : Decidable (RecWF r now) := by unfold RecWF; infer_instance
 instance (o : OutMsg) : Decidable (MsgWF o) := by unfold MsgWF; infer_instance
+
+theorem allSome_map_some {α : Type} (ms : List α) : allSome (ms.map some) = some ms := by
+  induction ms with
+  | nil => rfl
+  | cons m rest ih => simp [allSome, ih]
+
+theorem leftOut_of_sublist {α : Type} [DecidableEq α] (l : List α) :
+    ∀ s : List α, s.Sublist l → (leftOut s l).isSome = true := by
+  induction l with
+  | nil =>
+    intro s h
+    have : s = [] := List.eq_nil_of_sublist_nil h
+    subst this; simp [leftOut]
+  | cons e es ih =>
+    intro s h
+    cases s with
+    | nil => simp [leftOut]
+    | cons g gs =>
+      simp only [leftOut]
+      split
+      · rename_i hge
+        subst hge
+        apply ih
+        cases h with
+        | cons _ h' => exact (List.sublist_cons_self g gs).trans h'
+        | cons_cons _ h' => exact h'
+      · rename_i hge
+        cases h with
+        | cons _ h' => simpa using ih _ h'
+        | cons_cons _ h' => exact absurd rfl hge
 
 end Mdns.Enc
